@@ -9,7 +9,7 @@
               al  the allele tuple in written order, raw an opaque id of the
               complete sample column (GT and PS text)
      BAM  : read -> [hp, ps]   (-1 = untagged)
-     reads: read -> [smp, cov (seq of the sites the read fully covers), al (seq of the alleles shown there)]
+     reads: read -> [smp, tpl (template id), cov (seq of the sites the read fully covers), al (seq of the alleles shown there)]
 
    Property clauses relate W to V0, U and B.  The abstract commands below are the
    DESIGN of the three subcommands (conventions HP = haplotype index + 1, PS = phase
@@ -43,18 +43,21 @@ SetOfCoveringReads(reads, B, s, U, W) ==
 PrephasedUntouched(U, W) ==
     \A j \in Sites(W) : U[j].ph => W[j].raw = U[j].raw
 
-(* premise of the statement: no read overlaps two phase sets of V0 *)
-NoReadSpansTwoSets(reads, V0s) ==
-    \A r \in DOMAIN reads :
-        \A i \in CovSet(reads[r]), j \in CovSet(reads[r]) :
-            LET v == V0s[reads[r].smp] IN (v[i].ph /\ v[j].ph) => v[i].ps = v[j].ps
+(* premise of the statement: no read overlaps two phase sets of V0.  Made precise: phase sets are
+   separated by gaps no read spans, i.e. the reads (templates: mates share tpl) that cover one
+   site touch, all together, at most one phase set *)
+TouchedSets(v, rd) == { v[j].ps : j \in { i \in CovSet(rd) : v[i].ph /\ Het(v[i].al) } }
+TemplateSets(reads, V0s, r) ==
+    UNION { TouchedSets(V0s[reads[q].smp], reads[q]) : q \in { x \in DOMAIN reads : reads[x].tpl = reads[r].tpl } }
+SetsSeparated(reads, V0s) ==
+    \A s \in DOMAIN V0s : \A j \in DOMAIN V0s[s] :
+        Cardinality(UNION { TemplateSets(reads, V0s, r) :
+                            r \in { x \in DOMAIN reads : reads[x].smp = s /\ j \in CovSet(reads[x]) } }) <= 1
 
 -----------------------------------------------------------------------------
 (* the design of the commands, on one sample *)
 Agree(v, rd, p, h) ==
     Cardinality({ j \in CovSet(rd) : v[j].ph /\ Het(v[j].al) /\ v[j].ps = p /\ Shown(rd, j) = v[j].al[h] })
-
-TouchedSets(v, rd) == { v[j].ps : j \in { i \in CovSet(rd) : v[i].ph /\ Het(v[i].al) } }
 
 (* haplotag: any touched set with a maximal top score; tag iff the best haplotype is unique *)
 TagChoices(v, rd) ==
